@@ -1,6 +1,8 @@
 #!/usr/bin/env python3
-"""tools/make_neutral_prompts.py: write /tmp/neut2-prompt-<id>.txt for the second round of behaviour-preserving refactors."""
-import os, re
+"""tools/make_neutral_prompts.py [tag]: write /tmp/<tag>-prompt-<id>.txt for a further round of behaviour-preserving refactors
+(earlier edits in the same area are listed so that the new agent makes different ones)."""
+import os, re, sys, glob
+TAG = sys.argv[1] if len(sys.argv) > 1 else 'neut2'
 AREAS = {
  "m1": ("src/circular_buffer.rs", "n1-circular_buffer"),
  "m2": ("src/stream.rs and src/block.rs", "n2-stream"),
@@ -16,11 +18,14 @@ AREAS = {
 T = open("/tmp/neutral-prompt-n1.txt").read()
 T = T.replace("/tmp/neut-n1", "@WT@").replace("src/circular_buffer.rs", "@AREA@", 1)
 for k, (area, prev) in AREAS.items():
-    txt = T.replace("@WT@", "/tmp/neut2-%s" % k).replace("@AREA@", area)
-    if prev:
-        notes = open("/verif/neutral_seeded/%s/NOTES.md" % prev).read()
-        items = re.findall(r"^\d+\.\s+(.*)$", notes, re.M)[:12]
-        txt = txt.replace("Requirements:", "An earlier maintainer already made these edits in this area - make DIFFERENT ones (other functions, other kinds of "
-                          "rewrite):\n" + "\n".join("  - " + i[:150] for i in items) + "\n\nRequirements:")
-    open("/tmp/neut2-prompt-%s.txt" % k, "w").write(txt)
+    txt = T.replace("@WT@", "/tmp/%s-%s" % (TAG, k)).replace("@AREA@", area)
+    prevs = ([prev] if prev else []) + [os.path.basename(d) for d in sorted(glob.glob("/verif/neutral_seeded/%s-r*" % k))]
+    items = []
+    for pv in prevs:
+        notes = open("/verif/neutral_seeded/%s/NOTES.md" % pv).read()
+        items += re.findall(r"^\d+\.\s+(.*)$", notes, re.M)[:10] or re.findall(r"^[-*]\s+\*\*(.*?)\*\*", notes, re.M)[:10]
+    if items:
+        txt = txt.replace("Requirements:", "Earlier maintainers already made these edits in this area - make DIFFERENT ones (other functions, other kinds of "
+                          "rewrite; restructure control flow, move logic between functions, change data representations of locals):\n" + "\n".join("  - " + i[:150] for i in items[:22]) + "\n\nRequirements:")
+    open("/tmp/%s-prompt-%s.txt" % (TAG, k), "w").write(txt)
     print(k, area)
